@@ -44,7 +44,8 @@ VARIABLES hw, nparts, committed,                 \* broker
           emitted,                               \* history of this incarnation: <<p, lo, hi>> in emission order
           seed,                                  \* where this incarnation must start each partition: the committed offset read at start,
                                                  \* else the reset position resolved in the cycle that first sees the partition
-          origin,                                \* the first position the group ever had on each partition (messages before it are skipped by configuration)
+          origin,                                \* the position from which the group is owed every message of a partition: the first position it ever
+                                                 \* had there, moved forward whenever an incarnation without committed offset resets to "latest"
           processed,                             \* set of <<p, offset>> ever completely processed (any incarnation)
           lost,                                  \* messages that were committed past although never processed (checked at crash)
           crashes, inc
@@ -98,9 +99,11 @@ PollCycle ==
           \* the reset position of a partition without committed offset is fixed by the cycle that first sees it
           /\ seed' = [p \in Parts |-> IF p < kn /\ seed[p] = NoOffset
                                       THEN (IF first /\ Latest /\ pos0[p] = NoOffset THEN hw[p] ELSE 0) ELSE seed[p]]
-          /\ origin' = [p \in Parts |-> IF p < kn /\ origin[p] = NoOffset
-                                        THEN (IF pos0[p] # NoOffset THEN pos0[p]
-                                              ELSE IF first /\ Latest THEN hw[p] ELSE 0) ELSE origin[p]]
+          \* (an incarnation that finds no committed offset applies the reset policy again: with "latest" whatever was
+          \* produced before this first cycle is skipped by configuration, in this incarnation as in the first one)
+          /\ origin' = [p \in Parts |-> IF p < kn /\ pos0[p] = NoOffset /\ first /\ Latest THEN hw[p]
+                                        ELSE IF p < kn /\ origin[p] = NoOffset
+                                        THEN (IF pos0[p] # NoOffset THEN pos0[p] ELSE 0) ELSE origin[p]]
     /\ first' = FALSE
     /\ UNCHANGED <<hw, nparts, committed, alive, emitted, processed, lost, crashes, inc>>
 
